@@ -515,6 +515,10 @@ CATALOGUE['C14'] += [
   (F, 'R-PARTIALRAISE', 'camxfiles/one3d/Memmap.py', "        if self.__records % lays != 0:\n            raise ValueError('Incomplete time step: %d records of %d layers'\n                             % (self.__records, lays))\n", ""),
 ]
 
+CATALOGUE['C09'] += [
+  (F, 'R-FRAME', 'camxfiles/lateral_boundary/Write.py', "            cells = ([0, 0, 0, 0] + [icell, 0, 0, 0] * (nbcell - 2) +\n                     [0, 0, 0, 0])[:nbcell * 4]\n            np.array([buf, 1, ei, nbcell] + cells + [buf]\n                     ).astype('>i').tofile(outfile)", "            np.array([buf, 1, ei, nbcell, 0, 0, 0, 0] + [icell, 0, 0, 0] *\n                     (nbcell - 2) + [0, 0, 0, 0, buf]\n                     ).astype('>i').tofile(outfile)"),
+  (F, 'R-FRAME', 'camxfiles/lateral_boundary/Write.py', "                     [0, 0, 0, 0])[:nbcell * 4]", "                     [0, 0, 0, 0])[:nbcell * 4 + 1]"),
+]
 CATALOGUE['C06'] += [
   (F, 'R-MASKTMPL', _FN, "        mask = eval(mval, None, f.variables)\n", "        # mask = eval(mval, None, f.variables)\n"),
   (F, 'R-MASKTMPL', _FN, "        maskexpr = 'np.ma.masked_where(mask, var[:])'", "        maskexpr = 'np.ma.masked_where(mask, var[:].view(np.ndarray))'"),
